@@ -8,7 +8,7 @@ CLAIMED = {
  "C17": ("Every path of the real ipset.Set.add/compile/Contains (and the netip code below it) is executed symbolically for all prefix lists up to the stated size and every address; the stabbing query is proven equal to a naive scan with the standard library's own Prefix.Contains by unsat answers. Bounded: it is not a proof for longer lists.",
          "Trusted: go/ssa lowering, the /verif/engine executor and its intrinsic models (sort.Slice as the n<=12 insertion-sort regime, unique.Make), z3; the reference is net/netip's Prefix.Masked().Contains.", "DESIGN.md §5 C17"),
 }
-CLAIMED["C16"] = ("One inductive step of the real open-addressing table (Put, PutIfNotExists, Del, EvictKeysAt, grow, Clear, Get, Has): from an arbitrary table satisfying the representation invariant R (DESIGN.md A.1), with symbolic 64-bit keys/values/arguments, the solver proves R is re-established and that Get, Has and a full scan agree with map semantics for a fresh symbolic probe key, with the hash replaced by an uninterpreted function (so for every hash). Bounded to N=4 (quick) / N=8 (thorough) slots incl. growth; concurrency is outside the claim.",
+CLAIMED["C16"] = ("One inductive step of the real open-addressing table (Put, PutIfNotExists, Del, EvictKeysAt, grow, Clear, Get, Has): from an arbitrary table satisfying the representation invariant R (DESIGN.md A.1), with symbolic 64-bit keys/values/arguments, the solver proves R is re-established and that Get, Has and a full scan agree with map semantics for a fresh symbolic probe key, with the hash replaced by an uninterpreted function (so for every hash). Bounded to N=4 slots incl. growth to 8 (N=8 tables exceeded the budget and are outside the claim); concurrency is outside the claim.",
   "Trusted: engine, solver, invariant R being reachable-state sound (a spurious pre-state would give a false alarm, not a false pass); primaryIndex abstracted to an uninterpreted function of the key.", "DESIGN.md §5 C16")
 CLAIMED["C20"] = ("The real embedIPv4 / extractIPv4 / validatePrefix are executed symbolically for all six legal prefix lengths, every prefix byte value, all 2^32 IPv4 addresses and all 2^128 IPv6 addresses: octets land at the RFC 6052 positions (table written independently in the harness), octet 8 and the suffix are zero, extract inverts embed, extract accepts exactly the conformant addresses, illegal lengths are refused.",
   "Trusted: engine, solver, the RFC 6052 position table in the harness. Dispatch (WriteMsg) and gating kernels are added as they are built.", "DESIGN.md §5 C20")
